@@ -34,6 +34,13 @@ def make_key(kind, n=0):
     return k
 
 
+def fresh_key(kind, n=0):
+    """a new Key object (not the shared one) with the secret of make_key(kind, n)"""
+    from pytezos.crypto.key import Key
+    k0 = make_key(kind, n)
+    return Key.from_encoded_key(k0.secret_key())
+
+
 def make_client(key, **node_kw):
     from pytezos import pytezos
     from pytezos.rpc import ShellQuery
